@@ -43,9 +43,26 @@ type plan struct {
 	// two scopes of the case merge into the same otel_scope_info label set
 	// (attribute keys that differ only in characters the legacy scheme replaces)
 	scopeAlias bool
+	// clash, but every two instruments that may share a family (or an SDK
+	// identity) live in scopes with different (name, version) pairs and the
+	// scope labels are on: their series differ, a later definition of another
+	// type is dropped, a later help text replaced - a registry Prometheus accepts
+	clashSafe bool
+	// a View (addressed by instrument name, kind, scope name and version)
+	// would also match another instrument of the case
+	viewAmbiguous bool
+	// what the conflict is about (classes)
+	typeConflict, helpConflict bool
 }
 
 func (p *plan) strong() bool { return !p.clash && !p.odd && !p.alias && !p.scopeAlias }
+
+// accepted: the registry must accept every scrape (Gather returns no error).
+// That is every strong case and every case whose only weakness is a clash
+// between instruments of different scopes.
+func (p *plan) accepted() bool {
+	return !p.odd && !p.alias && !p.scopeAlias && !p.viewAmbiguous && (!p.clash || p.clashSafe)
+}
 
 func (in *Inst) attrSet(t int) attribute.Set {
 	keys, vals := in.Keys, []string(nil)
@@ -74,10 +91,41 @@ func newPlan(c *Case) *plan {
 	}
 	seen := map[string]int{}
 	lower := map[string]int{}
+	p.clashSafe = !c.NoScopeInfo
 	for i := range c.Insts {
 		in := &c.Insts[i]
 		r := refName(c, in)
 		p.refs = append(p.refs, r)
+		for j := 0; j < i; j++ {
+			o := &c.Insts[j]
+			may := strings.EqualFold(o.Name, in.Name)
+			for _, a := range p.refs[j].clashKeys() {
+				for _, b := range r.clashKeys() {
+					may = may || a == b
+				}
+			}
+			if !may {
+				continue
+			}
+			si, sj := c.Scopes[in.Scope], c.Scopes[o.Scope]
+			if si.Name == sj.Name && si.Version == sj.Version {
+				p.clashSafe = false
+			}
+			wt := func(k string) int {
+				switch {
+				case isCounter(k):
+					return 0
+				case isHist(k):
+					return 2
+				}
+				return 1
+			}
+			p.typeConflict = p.typeConflict || wt(o.Kind) != wt(in.Kind)
+			p.helpConflict = p.helpConflict || (wt(o.Kind) == wt(in.Kind) && o.Desc != in.Desc)
+			if o.Name == in.Name && (o.ExpSize != 0 || o.ExDrop || in.ExpSize != 0 || in.ExDrop) {
+				p.viewAmbiguous = true
+			}
+		}
 		for _, k := range r.clashKeys() {
 			if j, ok := seen[k]; ok && j != i {
 				p.clash = true
@@ -221,7 +269,8 @@ func build(c *Case) (*world, error) {
 		if in.ExDrop {
 			st.AttributeFilter = attribute.NewDenyKeysFilter(exKey)
 		}
-		po = append(po, sdkmetric.WithView(sdkmetric.NewView(sdkmetric.Instrument{Name: in.Name}, st)))
+		crit := sdkmetric.Instrument{Name: in.Name, Kind: instrumentKind(in.Kind), Scope: instrumentation.Scope{Name: c.Scopes[in.Scope].Name, Version: c.Scopes[in.Scope].Version}}
+		po = append(po, sdkmetric.WithView(sdkmetric.NewView(crit, st)))
 	}
 	w.mp = sdkmetric.NewMeterProvider(po...)
 	meters := make([]metric.Meter, len(c.Scopes))
@@ -477,6 +526,20 @@ func (k *checker) histShape(tag, fam string, h *dto.Histogram) {
 	if prev > h.GetSampleCount() {
 		k.bad("bucket_exceeds_count", "%s: %s: last finite bucket %d > _count %d", tag, fam, prev, h.GetSampleCount())
 	}
+}
+
+func instrumentKind(kind string) sdkmetric.InstrumentKind {
+	switch kind[3:] {
+	case "counter":
+		return sdkmetric.InstrumentKindCounter
+	case "updown":
+		return sdkmetric.InstrumentKindUpDownCounter
+	case "hist":
+		return sdkmetric.InstrumentKindHistogram
+	case "gauge":
+		return sdkmetric.InstrumentKindGauge
+	}
+	return 0
 }
 
 func sameScope(s instrumentation.Scope, sc Scope) bool {
@@ -1035,6 +1098,14 @@ func classify(c *Case, p *plan, info *vk.Info) {
 	}
 	info.ClassIf(p.scopeAlias, "weak:scope_info_series_alias_after_merge")
 	info.ClassIf(p.clash, "weak:instruments_may_share_family")
+	info.ClassIf(p.clash && p.accepted(), "clash_across_scopes(registry must accept)")
+	info.ClassIf(p.clash && p.accepted() && p.typeConflict, "clash_across_scopes_type_conflict")
+	info.ClassIf(p.clash && p.accepted() && p.helpConflict, "clash_across_scopes_help_conflict")
+	info.ClassIf(p.clash && !p.accepted(), "clash_not_acceptable(no panic only)")
+	info.ClassIf(p.clash && !p.clashSafe && c.NoScopeInfo, "clash_not_acceptable:no_scope_labels")
+	info.ClassIf(p.clash && !p.clashSafe && !c.NoScopeInfo, "clash_not_acceptable:same_scope_name_and_version")
+	info.ClassIf(p.clash && p.viewAmbiguous, "clash_not_acceptable:view_matches_two_instruments")
+	info.ClassIf(p.clash && (p.odd || p.alias || p.scopeAlias), "clash_not_acceptable:other_weakness")
 	info.ClassIf(p.odd, "weak:inconsistent_key_sets")
 	info.ClassIf(p.alias, "weak:attribute_sets_alias_after_merge")
 	info.ClassIf(p.strong(), "strong(exact oracle)")
@@ -1075,7 +1146,16 @@ func runSeq(c Case) ([]vk.Violation, vk.Info) {
 		}
 		k.legality(tag, mfs)
 		if !p.strong() {
-			continue // soundness notes: only "no panic" and legal names
+			// soundness notes: only "no panic" and legal names - and, where the
+			// clash is between instruments of different scopes, a scrape the
+			// registry accepts
+			if p.accepted() {
+				if gerr != nil {
+					k.bad("gather_error", "%s: Gather returned an error: %v", tag, gerr)
+				}
+				k.handled(tag, errs)
+			}
+			continue
 		}
 		if cerr != nil {
 			k.bad("manual_reader_error", "%s: ManualReader.Collect: %v", tag, cerr)
@@ -1126,11 +1206,79 @@ func runConc(c Case) ([]vk.Violation, vk.Info) {
 	if reps < 1 {
 		reps = 1
 	}
+	for rep := 0; rep < c.FirstReps && c.FirstScrapers > 0 && len(k.vs) == 0; rep++ {
+		firstScrapes(k, &c, rep, errs)
+	}
+	info.ClassIf(c.FirstScrapers > 0, "concurrent_first_scrapes")
+	info.ClassIf(c.FirstScrapers >= 5, "concurrent_first_scrapes_5..8")
 	for rep := 0; rep < reps && len(k.vs) == 0; rep++ {
 		concRun(k, &c, rep, errs)
 	}
 	k.flushClasses(&info)
 	return k.vs, info
+}
+
+// firstScrapes: a fresh exporter, every measurement recorded, then the FIRST
+// scrapes of its life released together. Whatever the exporter settles per
+// family name while it sees it for the first time, every one of those scrapes
+// (and the one after them) must be a set of families the registry accepts.
+func firstScrapes(k *checker, c *Case, rep int, errs *vk.ErrCapture) {
+	p := k.p
+	w, err := build(c)
+	if err != nil {
+		k.bad("setup_error", "%v", err)
+		return
+	}
+	defer w.close()
+	for r := range c.Rounds {
+		w.apply(r, c.Rounds[r])
+	}
+	k.longExemplar = anyLongExemplar(c, len(c.Rounds))
+	type scrape struct {
+		mfs []*dto.MetricFamily
+		err error
+	}
+	res := make([]scrape, c.FirstScrapers)
+	vk.Parallel(c.FirstScrapers, func(g int) {
+		if g < len(c.FirstPerturb) {
+			vk.Perturb(c.FirstPerturb[g])
+		}
+		res[g].mfs, res[g].err = w.reg.Gather()
+	})
+	after, aerr := w.reg.Gather()
+	res = append(res, scrape{after, aerr})
+	for g, r := range res {
+		tag := fmt.Sprintf("fresh exporter %d, concurrent first scrape %d of %d", rep+1, g+1, c.FirstScrapers)
+		if g == c.FirstScrapers {
+			tag = fmt.Sprintf("fresh exporter %d, scrape after the concurrent first scrapes", rep+1)
+		}
+		k.legality(tag, r.mfs)
+		if r.err != nil && p.accepted() {
+			k.bad("gather_error", "%s: Gather returned an error: %v", tag, r.err)
+		}
+		// one scrape = one type per family, and every series is of that type
+		for _, mf := range r.mfs {
+			for _, m := range mf.GetMetric() {
+				ok := true
+				switch mf.GetType() {
+				case dto.MetricType_COUNTER:
+					ok = m.Counter != nil
+				case dto.MetricType_GAUGE:
+					ok = m.Gauge != nil
+				case dto.MetricType_HISTOGRAM:
+					ok = m.Histogram != nil
+				}
+				if !ok {
+					k.bad("family_mixed_types", "%s: family %q of type %v has a series of another type: %v", tag, clip(mf.GetName()), mf.GetType(), m)
+				}
+			}
+		}
+	}
+	if p.accepted() {
+		k.handled(fmt.Sprintf("fresh exporter %d, first scrapes", rep+1), errs)
+	} else {
+		errs.Reset()
+	}
 }
 
 // concRun runs the concurrent program of the case once on a fresh exporter.
@@ -1193,11 +1341,11 @@ func concRun(k *checker, c *Case, rep int, errs *vk.ErrCapture) {
 			for s, r := range rs {
 				tag := fmt.Sprintf("run %d gatherer %d scrape %d", rep+1, g+1, s+1)
 				k.legality(tag, r.mfs)
+				if r.err != nil && p.accepted() {
+					k.bad("gather_error", "%s: concurrent Gather returned an error: %v", tag, r.err)
+				}
 				if !p.strong() {
 					continue
-				}
-				if r.err != nil {
-					k.bad("gather_error", "%s: concurrent Gather returned an error: %v", tag, r.err)
 				}
 				for _, mf := range r.mfs {
 					if mf.GetType() == dto.MetricType_HISTOGRAM {
@@ -1222,6 +1370,12 @@ func concRun(k *checker, c *Case, rep int, errs *vk.ErrCapture) {
 		}
 		tag := fmt.Sprintf("run %d quiescent scrape", rep+1)
 		k.legality(tag, mfs)
+		if !p.strong() && p.accepted() {
+			if gerr != nil {
+				k.bad("gather_error", "%s: Gather returned an error: %v", tag, gerr)
+			}
+			k.handled(tag, errs)
+		}
 		if p.strong() {
 			if cerr != nil {
 				k.bad("manual_reader_error", "%s: ManualReader.Collect: %v", tag, cerr)
